@@ -483,7 +483,7 @@ def run_sync_duplex(cfg):
 
     th = threading.Thread(target=relay, daemon=True)
     th.start()
-    tmo = 10.0
+    tmo = 300.0          # never reached unless something is really stuck (loaded machines included)
     results = {0: [], 1: [], 2: []}
     ops = {0: [], 1: [], 2: []}
     info = dict(got=bytearray(), sent_plain=bytearray(), stuck=False)
@@ -492,7 +492,7 @@ def run_sync_duplex(cfg):
     ops[0].append([0, 0])
     try:
         t = SSLStreamTransport(a, ctx, 1.0, server_side=not client, server_hostname="localhost" if client else None,
-                               standard_compatible=True, handshake_timeout=tmo, shutdown_timeout=1.0)
+                               standard_compatible=True, handshake_timeout=tmo, shutdown_timeout=0.2)   # the final close is outside the recorded trace
         results[0].append([1, 0, 0])
     except BaseException as exc:
         results[0].append([1, 1, _exc_code(exc)])
@@ -539,19 +539,19 @@ def run_sync_duplex(cfg):
         for x in ts:
             x.start()
         for x in ts:
-            x.join(30)                       # watchdog
+            x.join(600)                      # watchdog
             if x.is_alive():
                 info["stuck"] = True
     # let the relay drain what the transport sent
-    for _ in range(100):
-        if info["stuck"] or bytes(peer.plain_in) == bytes(info["sent_plain"]):
-            break
+    import time as _time
+    deadline = _time.monotonic() + 180.0
+    while not info["stuck"] and bytes(peer.plain_in) != bytes(info["sent_plain"]) and _time.monotonic() < deadline:
         threading.Event().wait(0.01)
     answers = {0: [], 1: [], 2: []}
     for tag, m, code, val in list(log):
         answers[tag].append([m, code, val])
     stop.set()
-    th.join(10)
+    th.join(180)
     if t is not None and not info["stuck"]:
         try:
             t.close()
